@@ -38,6 +38,7 @@ type c18Case struct {
 	Cut      int   `json:"short_read_at"` // a read never crosses this stream offset (0 = none)
 	Bound    int   `json:"bound,omitempty"`
 	Timers   int   `json:"timer_fires"`
+	Size     int   `json:"frame_size,omitempty"`                       // frame size of the (first) connection; 0 = 8
 	Second   int   `json:"second_connection_frame_size,omitempty"` // >0: the camera reconnects (same process) with this frame size and sends Frames frames again
 	Choices  []int `json:"choices,omitempty"`                      // schedule (replay)
 }
@@ -83,8 +84,21 @@ func c18HeaderN(size int) []byte {
 
 func c18Frame(i int) []byte { return c18FrameN(i, c18FrameSize) }
 
+func (c c18Case) size() int {
+	if c.Size > 0 {
+		return c.Size
+	}
+	return c18FrameSize
+}
+
 func c18FrameN(i, size int) []byte {
 	f := make([]byte, size)
+	if size < 8 {
+		for k := range f {
+			f[k] = byte(i*31 + k*7 + 1)
+		}
+		return f
+	}
 	binary.BigEndian.PutUint32(f, uint32(0xF0000000+i))
 	binary.BigEndian.PutUint32(f[4:], uint32(i*2654435761))
 	for k := 8; k < size; k++ {
@@ -195,11 +209,11 @@ func c18Body(c c18Case, obs *c18Obs) func() {
 		}
 		obs.dir = dir
 		frameLogIntervalFirstMin, frameLogInterval = frameLogIntervalFirstMin0, frameLogInterval0
-		data := c18Header()
+		data := c18HeaderN(c.size())
 		for i := 1; i <= c.Frames; i++ {
-			data = append(data, c18Frame(i)...)
+			data = append(data, c18FrameN(i, c.size())...)
 		}
-		data = append(data, c18Frame(9999)[:c.Tail]...)
+		data = append(data, c18FrameN(9999, c.size())[:c.Tail]...)
 		conf := &Config{DeviceID: 77, DeviceName: "c18-device", OutputDir: dir}
 		obs.connErr = handleConn(&c18Conn{data: data, cut: c.Cut}, conf, false)
 		if c.Second > 0 && obs.connErr == io.EOF {
@@ -258,8 +272,8 @@ func c18Check(c c18Case, e *vsched.Exec, obs *c18Obs) (string, string) {
 		return "C18:frame-count", fmt.Sprintf("%d frames stored in %d files, %d complete frames were received", len(all), len(files), c.Frames)
 	}
 	for i, fr := range all {
-		if !bytes.Equal(fr, c18Frame(i+1)) {
-			return "C18:frame-content-or-order", fmt.Sprintf("stored frame %d is % x, received % x", i+1, fr, c18Frame(i+1))
+		if !bytes.Equal(fr, c18FrameN(i+1, c.size())) {
+			return "C18:frame-content-or-order", fmt.Sprintf("stored frame %d is % x, received % x", i+1, c18Short(fr), c18Short(c18FrameN(i+1, c.size())))
 		}
 	}
 	if c.Second > 0 {
@@ -273,7 +287,7 @@ func c18Check(c c18Case, e *vsched.Exec, obs *c18Obs) (string, string) {
 		for _, f := range files2 {
 			fr, err := parseCPTR(f)
 			if err != nil {
-				return "C18:malformed-file", fmt.Sprintf("second connection (frame size %d after a connection with frame size %d): %s: %v", c.Second, c18FrameSize, filepath.Base(f), err)
+				return "C18:malformed-file", fmt.Sprintf("second connection (frame size %d after a connection with frame size %d): %s: %v", c.Second, c.size(), filepath.Base(f), err)
 			}
 			all2 = append(all2, fr...)
 		}
@@ -287,6 +301,13 @@ func c18Check(c c18Case, e *vsched.Exec, obs *c18Obs) (string, string) {
 		}
 	}
 	return "", ""
+}
+
+func c18Short(b []byte) []byte {
+	if len(b) > 24 {
+		return b[:24]
+	}
+	return b
 }
 
 func c18Replay(cj []byte) []ev.Violation {
@@ -364,6 +385,22 @@ func TestVerifC18(t *testing.T) {
 		scens = append(scens, scen{c18Case{InFlight: n, Frames: n + 1, Cut: len(c18Header()) + c18FrameSize + 3, Timers: 1}, 0})
 	}
 	scens = append(scens, scen{c18Case{InFlight: 256, Frames: 258, Timers: 0}, 1})
+	// all read segmentations at one cut: a read never crosses offset k, for every k of the stream (pool 2, 3 frames)
+	for k := 1; k < len(c18Header())+3*c18FrameSize; k++ {
+		if !r.Thorough() && k%3 != 0 && k < len(c18Header())-2 {
+			continue // quick: every third offset inside the header, every offset from its last bytes on
+		}
+		scens = append(scens, scen{c18Case{InFlight: 2, Frames: 3, Cut: k, Timers: 0}, 1})
+	}
+	// other frame sizes (all frame sizes are in the quantifier): 1, 7, 9 bytes, one larger than the
+	// (scaled) 64 KiB read buffer, with a cut inside a frame and a trailing partial frame
+	for _, sz := range []int{1, 7, 9, 70000} {
+		scens = append(scens, scen{c18Case{InFlight: 2, Frames: 3, Size: sz, Timers: 0}, 1})
+		scens = append(scens, scen{c18Case{InFlight: 1, Frames: 2, Size: sz, Cut: len(c18HeaderN(sz)) + sz + sz/2, Timers: 1}, 1})
+		if sz > 1 {
+			scens = append(scens, scen{c18Case{InFlight: 2, Frames: 2, Size: sz, Tail: sz / 2, Timers: 0}, 1})
+		}
+	}
 	r.SetDeadline(map[bool]time.Duration{false: 150 * time.Second, true: 35 * time.Minute}[r.Thorough()])
 	per := map[string]interface{}{}
 	completed := 0
@@ -410,7 +447,7 @@ func TestVerifC18(t *testing.T) {
 				}
 			}
 			x.Explore()
-			per[fmt.Sprintf("bound=%d inflight=%d frames=%d tail=%d cut=%d second=%d", bound, c.InFlight, c.Frames, c.Tail, c.Cut, c.Second)] = map[string]interface{}{"executions": x.Executions, "max_points": x.MaxPoints, "complete": !x.Capped}
+			per[fmt.Sprintf("bound=%d inflight=%d frames=%d size=%d tail=%d cut=%d second=%d", bound, c.InFlight, c.Frames, c.size(), c.Tail, c.Cut, c.Second)] = map[string]interface{}{"executions": x.Executions, "max_points": x.MaxPoints, "complete": !x.Capped}
 			if x.Capped {
 				allComplete = false
 			}
@@ -437,6 +474,6 @@ func TestVerifC18(t *testing.T) {
 func c18Describe(r *ev.Run, completeBound, maxBound int) {
 	r.Bounds["deviation_bound_complete"] = completeBound
 	r.Bounds["deviation_bound_attempted"] = maxBound
-	r.Rule = "the real handleConn of thermal-writer (which starts the real writer goroutine) on an in-memory connection, under the cooperative scheduler: instrumented copies of main.go/thermalraw.go/bufferedfile.go (channel operations, goroutine start, select, one-minute rotation timer, clock are scheduling points; the Go select's random pick and the timer are explored choices); buffer pool size inFlight scaled to 1,2,3 with 0..2N+2 frames, a trailing partial frame, a short read, inFlight=256 with 258 frames at bound 1, and the camera reconnecting within the same process with another frame size; every interleaving with at most the stated number of deviations (preemptions + timer fires; thorough: sharded over 14 processes, the higher bound under a time cap, reported per scenario). Oracle: all *.cptr parse (magic, version, header fields, only length-prefixed frame sections, no trailing bytes), concatenated payloads = frames sent, no deadlock/panic, and no pair of frame-buffer accesses (io.ReadFull fill vs writeFrame) unordered by channel happens-before. Non-trivial = every execution (the depth-first enumeration never repeats a choice sequence, so executions of one scenario are pairwise distinct schedules)."
+	r.Rule = "the real handleConn of thermal-writer (which starts the real writer goroutine) on an in-memory connection, under the cooperative scheduler: instrumented copies of main.go/thermalraw.go/bufferedfile.go (channel operations, goroutine start, select, one-minute rotation timer, clock are scheduling points; the Go select's random pick and the timer are explored choices); buffer pool size inFlight scaled to 1,2,3 with 0..2N+2 frames, a trailing partial frame, a short read, inFlight=256 with 258 frames at bound 1, a read boundary at every offset of a 3-frame stream (quick: every third offset inside the header) at bound 1, frame sizes 1, 7, 9 and 70000 bytes (larger than the scaled read buffer) at bound 1, and the camera reconnecting within the same process with another frame size; every interleaving with at most the stated number of deviations (preemptions + timer fires; thorough: sharded over 14 processes, the higher bound under a time cap, reported per scenario). Oracle: all *.cptr parse (magic, version, header fields, only length-prefixed frame sections, no trailing bytes), concatenated payloads = frames sent, no deadlock/panic, and no pair of frame-buffer accesses (io.ReadFull fill vs writeFrame) unordered by channel happens-before. Non-trivial = every execution (the depth-first enumeration never repeats a choice sequence, so executions of one scenario are pairwise distinct schedules)."
 	r.Assumptions = []string{"sequentially consistent interleavings at synchronisation granularity + happens-before race check on the frame buffers (a race-free Go program is SC)", "bufio buffer scaled from 32 MiB to 64 KiB, inFlight scaled through a run-time parameter (both by the syntactic instrumenter)"}
 }
